@@ -49,6 +49,9 @@ def _arrays() -> typing.List[Entry]:
         ("A_i16v", "int16[<=2] a\n@sealed\n", "variable array of zero-cost 16-bit"),
         ("A_u12v", "uint12[<=3] a\n@sealed\n", "variable array of non-zero-cost primitives"),
         ("A_i5f_sat", "saturated int5[3] a\n@sealed\n", "fixed array of saturated signed"),
+        ("A_u4f2", "uint4[2] a\nuint8 z\n@sealed\n", "fixed array of sub-byte elements starting aligned whose END is byte-aligned (only the first element is aligned)"),
+        ("A_i12f2", "saturated int12[2] a\nuint8 z\n@sealed\n", "fixed array of 12-bit elements, aligned start and end, second element unaligned"),
+        ("A_u6f4", "uint6[4] a\n@sealed\n", "fixed array of 6-bit elements, 24 bits in total"),
         ("A_boolv", "bool[<=10] a\n@sealed\n", "variable bit array (bitpacked)"),
         ("A_boolf_un", "uint3 pre\nbool[9] a\n@sealed\n", "fixed bit array unaligned"),
         ("A_f16v", "float16[<=2] a\n@sealed\n", "variable array of float16"),
